@@ -169,7 +169,16 @@ class Interp:
             raise _Return(self.load(self.eval(u, s.get("e"), env, this)) if s.get("e") is not None else None)
         elif k in ("null",):
             return
-        elif k in ("decl", "for", "while", "do", "range_for", "switch", "try"):
+        elif k == "decl":
+            # a local that is not a hook is of no concern to the ring; one that cannot be evaluated becomes opaque and may
+            # not be used in a link operation afterwards
+            for v in s.get("ch", []):
+                if v.get("k") == "var" and "id" in v:
+                    try:
+                        env[v["id"]] = self.load(self.eval(u, v.get("init"), env, this)) if v.get("init") is not None else ("opaque",)
+                    except ShapeUnsupported:
+                        env[v["id"]] = ("opaque",)
+        elif k in ("for", "while", "do", "range_for", "switch", "try"):
             raise ShapeUnsupported("statement kind %s in a ring operation" % k)
         else:
             self.eval(u, s, env, this)
